@@ -193,13 +193,18 @@ func (s *verifC14Suite) c14SeedSnap(c *C, name, how string) {
 	for _, r := range revs {
 		sis = append(sis, c14SideInfo(name, r))
 	}
-	snapstate.Set(s.state, name, &snapstate.SnapState{
+	snapst := &snapstate.SnapState{
 		Active:          active,
 		Sequence:        snapstatetest.NewSequenceFromSnapSideInfos(sis),
 		Current:         snap.R(revs[len(revs)-1]),
 		SnapType:        typ,
 		TrackingChannel: "latest/stable",
-	})
+	}
+	if name != "snapd" {
+		// a manual alias to remove ("unalias" requests)
+		snapst.Aliases = map[string]*snapstate.AliasTarget{"al-" + name: {Manual: "cmd1"}}
+	}
+	snapstate.Set(s.state, name, snapst)
 }
 
 // ---------------------------------------------------------------------------
@@ -638,9 +643,13 @@ func (s *verifC14Suite) c14History(c *C, k *kit.Check, idx int, sc c14Script) {
 						k.Count("exclusive_refused_others_in_progress", 1)
 						continue
 					}
-					if m.unready() > 0 {
-						// reverse direction: not part of the statement, only counted
-						k.Count("exclusive_allowed_with_unready_claims", 1)
+					// reverse direction (an exclusive change may start although
+					// other changes are in progress): not part of the statement,
+					// only counted, by kind of the change in progress
+					for _, cl := range m.claims {
+						if !cl.chg.Status().Ready() {
+							k.Count("exclusive_allowed_while_unready_"+cl.chg.Kind(), 1)
+						}
 					}
 				}
 				chg := newHeld(ev.Arg, "exclusive change held by the harness", "", false)
@@ -889,8 +898,8 @@ func (s *verifC14Suite) TestVerifC14(c *C) {
 		c.Fatal(err)
 	}
 
-	nHist := kit.Scale(36, 150)
-	nRounds := kit.Scale(3, 6)
+	nHist := kit.Scale(10, 50)
+	nRounds := kit.Scale(1, 3)
 	only := kit.OnlyCase()
 	for idx := 0; idx < nHist; idx++ {
 		if only >= 0 && only != idx {
@@ -912,14 +921,16 @@ func (s *verifC14Suite) TestVerifC14(c *C) {
 	}
 
 	if only < 0 {
-		k.Floor("busy_at_request", 15)
-		k.Floor("busy_rejected_with_conflict_error", 8)
-		k.Floor("exclusive_probes", 15)
-		k.Floor("requests_accepted", 40)
-		k.Floor("rejected_footprint_checks", 60)
-		k.Floor("race_calls_overlapping_a_mutation", 10)
-		k.Floor("race_calls_record_changed_meanwhile", 5)
-		k.Floor("race_accepted", 5)
+		// per process (quick runs 4 shards of 10 histories + 1 race round);
+		// a normal shard sees 3-10x these numbers
+		k.Floor("busy_at_request", 5)
+		k.Floor("busy_rejected_with_conflict_error", 2)
+		k.Floor("exclusive_probes", 5)
+		k.Floor("requests_accepted", 12)
+		k.Floor("rejected_footprint_checks", 25)
+		k.Floor("race_calls_overlapping_a_mutation", 5)
+		k.Floor("race_calls_record_changed_meanwhile", 3)
+		k.Floor("race_accepted", 3)
 	} else {
 		k.MinDistinct(0)
 	}
